@@ -742,6 +742,12 @@ class Interp:
             self.exec_block(st.body)
         elif isinstance(st, ast.FunctionDef):
             self.env[st.name] = Closure(st, self)
+        elif isinstance(st, (ast.Import, ast.ImportFrom)):
+            # a function-level import binds module / attribute names; what they stand for is modelled by the externals
+            for al in st.names:
+                nm = al.asname or al.name.split(".")[0]
+                if nm not in self.env:
+                    self.env[nm] = Obj(al.name)
         elif isinstance(st, (ast.Global, ast.Nonlocal)):
             # reads and in-place operations go to the shared object anyway; REBINDING such a name is not modelled
             if isinstance(st, ast.Global):
